@@ -1,8 +1,9 @@
 """C16 - ulist, dictattr and Dict implement ordered set / key algebra without side effects.
 
 Python renders the abstract inputs of spec/Algebra.tla (tagged values, mappings as [key, value] sequences with a
-class beside them, dependency graphs as key -> parameter names) into real ulist / dictattr / Dict objects and
-synthesised functions, performs ONE public call, and encodes the outcome together with every operand before
+class beside them, dependency graphs as key -> parameter names with the kind of every parameter - required, defaulted,
+keyword-only -, *args / **kwargs and the shape of the callable) into real ulist / dictattr / Dict objects and
+synthesised functions / callable objects / partials, performs ONE public call, and encodes the outcome together with every operand before
 and after the call.  S2C compares with == against what TLC printed; mismatches, a sample of the matches and all
 C2S observations are judged and named by spec/Trace_Algebra.tla."""
 import itertools, json
